@@ -10,13 +10,13 @@ Extraction "model.ml"
   mkv dewey_cmp dewey_new dewey_matches
   mkv_spec vcmp testc verdict_m verdict_spec letter_conflict
   print_z parse_i64 parse_u64
-  pattern_new pm pm_w glob_new glob_matches quick best2 fuel_for pkgname_new string_step
+  pattern_new pm pm_w glob_new glob_matches quick best2 best2_w fuel_for pkgname_new string_step
   print exp spec_match
   all_vars kind_of empty apply_op run get print_entry parse_entry is_completed sum_pkgbase sum_pkgversion
   stream_write stream_init print_stream utf8_valid lines
   all_algs alg_name alg_parse alg_parse_bytes filter_patch classify parse_dline di_from_bytes di_as_bytes di_insert di_empty
   hash_file_pre hash_patch_pre
   pkgpath_new pkgpath_eqb depend_new scan_read words trim
-  all_mentries to_filename from_filename read_metadata meta_empty meta_is_valid db_iter db_open_iter valid_pkgdir package_of
+  all_mentries to_filename from_filename read_metadata meta_empty meta_is_valid db_iter db_open_iter pkg_read_file valid_pkgdir package_of
   entry_of_bytes plist_of_bytes scan_lines files files_prefixed install_cmds uninstall_cmds depends build_depends conflicts pkgdirs pkgrmdirs pl_pkgname pl_display is_preserve
   entry_bytes find_entry verify_size verify_checksum path_eqb pcomps.
